@@ -164,10 +164,14 @@ def regionOf (s : BusH ν) (n : ν) : Option Region := (s.regions.find? (·.1 ==
 def slaveRegions (s : BusH ν) : List (ν × Region) :=
   s.slaves.filterMap (fun n => (s.regionOf n).map (fun r => (n, r)))
 
-/-- `do_finalize` produces a point-to-point interconnect (no decoder is built, no check is made). -/
+/-- `do_finalize` produces a point-to-point interconnect (no decoder is built, no check is made): one master,
+    one slave, and the *slave's own* region starts at 0 (`self.regions[next(iter(self.slaves))].origin == 0`;
+    a slave always has a region, `BusH.Inv.slaves_have`). -/
 def isP2P (s : BusH ν) : Bool :=
   s.masters.length == 1 && s.slaves.length == 1 &&
-    (match s.regions with | [] => false | (_, r) :: _ => r.origin == 0)
+    (match s.slaves with
+     | [] => false
+     | n :: _ => match s.regionOf n with | some r => r.origin == 0 | none => false)
 
 /-- The checks of `do_finalize`: `ok` iff the interconnect is built without `SoCError`. -/
 def finalize (s : BusH ν) : Except Err Unit :=
